@@ -12,6 +12,9 @@ CLAIMED = {
  "C05": ("upgrade-site analysis: level-operand shape, verifier-success dominance with role/provenance of the user operand, subject binding of the re-signed cookie, consumption of one-time values",
          "Every site that raises or creates a session level: the level operand is the authenticated level OR constant bits; each added bit is dominated on all paths by its verifier's success edge applied to the authenticated user (or a record bound to that user); the re-signed cookie's subject is compared with that user; one-time values are consumed before the upgrade and expired ones refused. Structural, all paths, current source; not an enumeration of histories.",
          "Trusts the verifier libraries (u2f, webauthn, otp, vip, okta) and go-jose. Verifier table keyed by factor bit is part of the checker.", "DESIGN.md §3 C05"),
+ "C09": ("who-may-write table for the signer fields, must-lockset analysis of unsealCA, dominance of decrypt/load/ready-send by their preconditions, per-route sealed-gate dominance of primitive signing calls, structural check of the key-publication loop",
+         "Signer family written only by reviewed writers with Signer stored last; unsealCA holds the mutex from entry to every return, tests already-unsealed before decrypting, loads only after successful decryption, signals readiness only after a successful load of a sealed server; injection requires a verified client chain; every primitive signing call reachable from a service route is dominated by the sealed gate; readiness 200 only when unsealed; publication of public keys follows every load. All paths, current source.",
+         "Trusts sync.Mutex, go/ssa. Interleavings are covered only through lock discipline and single-store structure, not enumerated.", "DESIGN.md §3 C09"),
  "C08": ("per-accessor operand binding (own user / equality / admin fact) by guard-fact dataflow followed through parameters into callers; structural check of admin predicates and cache",
          "Every profile/user-store accessor reachable from a service route has its user operand bound to the authenticated user, compared equal to it, or guarded by the administrator fact of its operation class, on every path; IsAdminUserAndU2F, IsAdminUser, the admin cache and automation-certificate minting have the required shape.",
          "Trusts go/types+go/ssa; directory content is out of scope. Operation classes (read / write / user administration) are a reviewed table keyed by handler.", "DESIGN.md §3 C08"),
